@@ -15,11 +15,11 @@ import (
 // set the plan is a replay of exactly one faulted execution.
 
 type C16Fault struct {
-	Writer     string  `json:"writer"` // sw | plain
-	W          *WFault `json:"w,omitempty"`
-	R          *RFault `json:"r,omitempty"`
-	ViaReader  bool    `json:"via_sanitize_reader,omitempty"` // entry point SanitizeReader instead of ...ToWriter
-	Combined   bool    `json:"combined,omitempty"`
+	Writer    string  `json:"writer"` // sw | plain
+	W         *WFault `json:"w,omitempty"`
+	R         *RFault `json:"r,omitempty"`
+	ViaReader bool    `json:"via_sanitize_reader,omitempty"` // entry point SanitizeReader instead of ...ToWriter
+	Combined  bool    `json:"combined,omitempty"`
 }
 
 type C16Plan struct {
